@@ -16,26 +16,17 @@ package main
 
 import (
 	"bytes"
-	"context"
 	"fmt"
-	"io"
-	"log/slog"
 	"strconv"
 	"strings"
 	"sync"
 	"sync/atomic"
 	"time"
 
-	"google.golang.org/protobuf/types/known/timestamppb"
 	"reduction.dev/reduction-protocol/handlerpb"
-	"reduction.dev/reduction/batching"
-	"reduction.dev/reduction/connectors/embedded"
 	"reduction.dev/reduction/dkv"
 	"reduction.dev/reduction/dkv/storage"
 	"reduction.dev/reduction/partitioning"
-	"reduction.dev/reduction/proto"
-	"reduction.dev/reduction/proto/jobpb"
-	"reduction.dev/reduction/proto/workerpb"
 	"reduction.dev/reduction/util/verifhook"
 	"reduction.dev/reduction/workers/operator"
 	"verif/harness/lib"
@@ -149,11 +140,27 @@ func c03ShowState(st []*handlerpb.StateEntryNamespace) string {
 
 // ---------------------------------------------------------------- background bookkeeping
 
-func c03Hook(mid *atomic.Pointer[dkv.DB]) verifhook.Handler {
+// c03Pins keeps every table object of a case reachable (see c03ImplOp: the collector's deletions are not this check's subject)
+type c03Pins struct {
+	mu   sync.Mutex
+	objs []any
+}
+
+func (p *c03Pins) add(x any) {
+	p.mu.Lock()
+	p.objs = append(p.objs, x)
+	p.mu.Unlock()
+}
+
+func c03Hook(mid *atomic.Pointer[dkv.DB], pins *c03Pins) verifhook.Handler {
 	return func(label string, payload []any) {
 		switch label {
 		case "dkv.flush.done":
 			c03Flushes.Add(1)
+		case "dkv.compact.commit":
+			if pins != nil && len(payload) > 1 {
+				pins.add(payload[1]) // the change set: tables leaving the level list stay reachable
+			}
 		case "dkv.compact.done":
 			c03Compacts.Add(1)
 		case "dkv.read.between":
@@ -230,7 +237,7 @@ func c03ImplStore(c lib.Case, cfg c03Cfg) []string {
 		return []string{"start " + err.Error()}
 	}
 	var mid atomic.Pointer[dkv.DB]
-	verifhook.Set(c03Hook(&mid))
+	verifhook.Set(c03Hook(&mid, nil))
 	defer func() {
 		c03WaitTasks(db)
 		verifhook.Set(nil)
@@ -356,251 +363,6 @@ func c03Decode(ks *partitioning.KeySpace, k []byte, ns string, d []byte) string 
 	return lib.Hex([]byte(st[0].Namespace)) + " " + lib.Hex(st[0].Entries[0].Key)
 }
 
-// ---------------------------------------------------------------- mode "op"
-
-type c03Timer struct {
-	mu sync.Mutex
-	do func()
-}
-
-func (t *c03Timer) Set(d time.Duration, do func()) { t.mu.Lock(); t.do = do; t.mu.Unlock() }
-func (t *c03Timer) Stop()                          { t.mu.Lock(); t.do = nil; t.mu.Unlock() }
-func (t *c03Timer) take() func() {
-	t.mu.Lock()
-	defer t.mu.Unlock()
-	do := t.do
-	t.do = nil
-	return do
-}
-
-type c03Job struct{ proto.NoopJob }
-
-// reference handler: reports the KeyStates it is given (in order of first occurrence of the key among the events),
-// returns the scripted response
-type c03Handler struct {
-	mu   sync.Mutex
-	next *handlerpb.ProcessEventBatchResponse
-	seen []string
-}
-
-func (h *c03Handler) KeyEventBatch(ctx context.Context, events [][]byte) ([][]*handlerpb.KeyedEvent, error) {
-	panic("unused by operators")
-}
-
-func (h *c03Handler) ProcessEventBatch(ctx context.Context, req *handlerpb.ProcessEventBatchRequest) (*handlerpb.ProcessEventBatchResponse, error) {
-	given := map[string][]*handlerpb.KeyState{}
-	for _, ks := range req.KeyStates {
-		given[string(ks.Key)] = append(given[string(ks.Key)], ks)
-	}
-	var parts []string
-	done := map[string]bool{}
-	for _, ev := range req.Events {
-		var k []byte
-		switch e := ev.Event.(type) {
-		case *handlerpb.Event_KeyedEvent:
-			k = e.KeyedEvent.Key
-		case *handlerpb.Event_TimerExpired:
-			k = e.TimerExpired.Key
-		}
-		if done[string(k)] {
-			continue
-		}
-		done[string(k)] = true
-		switch g := given[string(k)]; len(g) {
-		case 0:
-			parts = append(parts, lib.Hex(k)+":missing")
-		case 1:
-			parts = append(parts, lib.Hex(k)+":"+c03ShowState(g[0].StateEntryNamespaces))
-		default:
-			parts = append(parts, lib.Hex(k)+":duplicate-key-state")
-		}
-	}
-	for _, ks := range req.KeyStates {
-		if !done[string(ks.Key)] {
-			done[string(ks.Key)] = true
-			parts = append(parts, "unrequested:"+lib.Hex(ks.Key))
-		}
-	}
-	h.mu.Lock()
-	defer h.mu.Unlock()
-	h.seen = append(h.seen, strings.Join(parts, ";"))
-	resp := h.next
-	h.next = nil
-	if resp == nil {
-		resp = &handlerpb.ProcessEventBatchResponse{}
-	}
-	return resp, nil
-}
-
-func (h *c03Handler) takeSeen() []string {
-	h.mu.Lock()
-	defer h.mu.Unlock()
-	s := h.seen
-	h.seen = nil
-	return s
-}
-
-const c03OpID = "c03op"
-
-func c03ImplOp(c lib.Case, cfg c03Cfg) []string {
-	slog.SetDefault(slog.New(slog.NewTextHandler(io.Discard, nil)))
-	c03Seq++
-	h := &c03Handler{}
-	timer := &c03Timer{}
-	op := operator.NewOperator(operator.NewOperatorParams{
-		ID:            c03OpID,
-		UserHandler:   h,
-		Job:           &c03Job{},
-		EventBatching: batching.EventBatcherParams{MaxSize: cfg.batch, MaxDelay: time.Hour, Timer: timer},
-	})
-	ctx, cancel := context.WithCancel(context.Background())
-	started := make(chan struct{})
-	go func() { close(started); op.Start(ctx) }()
-	<-started
-	var mid atomic.Pointer[dkv.DB]
-	verifhook.Set(c03Hook(&mid))
-	var db *dkv.DB
-	defer func() {
-		if db != nil {
-			c03WaitTasks(db)
-		}
-		verifhook.Set(nil)
-		cancel()
-	}()
-	if err := op.HandleDeploy(ctx, &workerpb.DeployOperatorRequest{
-		Operators:       []*jobpb.NodeIdentity{{Id: c03OpID, Host: "h"}},
-		SourceRunnerIds: []string{"s0"},
-		KeyGroupCount:   int32(cfg.kgc),
-		StorageLocation: fmt.Sprintf("memory:///c03op-%d", c03Seq),
-	}, &embedded.RecordingSink{}); err != nil {
-		return []string{"deploy " + err.Error()}
-	}
-	db = op.VerifDB()
-	c03Tune(db, cfg)
-	syncLoop := func() bool {
-		ch := make(chan struct{})
-		go func() { op.VerifSync(); close(ch) }()
-		select {
-		case <-ch:
-			return true
-		case <-time.After(c03Wait):
-			return false
-		}
-	}
-	for i := 0; !op.VerifReady() && i < 1000; i++ {
-		time.Sleep(time.Millisecond)
-	}
-	if !op.VerifReady() || !syncLoop() {
-		return []string{"operator-not-ready"}
-	}
-	send := func(ev *workerpb.Event) string {
-		ch := make(chan error, 1)
-		go func() { ch <- op.HandleEvent(ctx, "s0", ev) }()
-		select {
-		case err := <-ch:
-			if err != nil {
-				return "error " + strings.ReplaceAll(err.Error(), "\n", " ")
-			}
-			return ""
-		case <-time.After(c03Wait):
-			return "timeout"
-		}
-	}
-	rot := &c03Rot{}
-	ckpt := uint64(0)
-	preflight := operator.NewKeyedStateStore(db, partitioning.NewKeySpace(cfg.kgc, 1))
-	out := make([]string, 0, len(c.Ops))
-	opOne := func(opl string) {
-		for range 1 {
-			f := strings.Fields(opl)
-			switch f[0] {
-			case "batch":
-				evs, res, ok := c03ParseBatch(f[1:])
-				if !ok || len(evs) == 0 || len(evs) > cfg.batch {
-					out = append(out, "bad-op")
-					continue
-				}
-				resp := &handlerpb.ProcessEventBatchResponse{}
-				for _, r := range res {
-					kr := &handlerpb.KeyResult{Key: r.key, StateMutationNamespaces: c03ToPB(r.nss)}
-					for _, t := range r.timers {
-						kr.NewTimers = append(kr.NewTimers, timestamppb.New(time.Unix(0, t)))
-					}
-					resp.KeyResults = append(resp.KeyResults, kr)
-				}
-				h.mu.Lock()
-				h.next = resp
-				h.mu.Unlock()
-				// pre-flight on this goroutine: the same GetState calls the event loop is about to make. A panic in the
-				// store then surfaces here (recovered by the framework as an observation) instead of killing the process
-				// from the operator's own goroutine.
-				for _, k := range evs {
-					if _, err := preflight.GetState(k); err != nil {
-						panic(fmt.Sprintf("GetState: %v", err))
-					}
-				}
-				fail := ""
-				for i, k := range evs {
-					if e := send(&workerpb.Event{Event: &workerpb.Event_KeyedEvent{KeyedEvent: &handlerpb.KeyedEvent{Key: k, Value: []byte{byte(i)}, Timestamp: timestamppb.New(time.Unix(0, 1))}}}); e != "" {
-						fail = e
-						break
-					}
-				}
-				if fail == "" && len(evs) < cfg.batch {
-					// a partial batch is flushed by the batcher's timeout
-					do := timer.take()
-					if do == nil {
-						fail = "no-batch-timer"
-					} else {
-						// the callback returns once the event loop has taken the batch token; the loop then runs the batch
-						sent := make(chan struct{})
-						go func() { do(); close(sent) }()
-						select {
-						case <-sent:
-						case <-time.After(c03Wait):
-							fail = "timeout"
-						}
-					}
-				}
-				if fail == "" && !syncLoop() {
-					fail = "timeout"
-				}
-				seen := h.takeSeen()
-				switch {
-				case fail != "":
-					out = append(out, fail)
-				case len(seen) == 0:
-					out = append(out, "handler-not-invoked")
-				default:
-					out = append(out, strings.Join(seen, " | "))
-				}
-			case "ckpt":
-				ckpt++
-				if e := send(&workerpb.Event{Event: &workerpb.Event_CheckpointBarrier{CheckpointBarrier: &workerpb.CheckpointBarrier{CheckpointId: ckpt}}}); e != "" {
-					out = append(out, e)
-				} else {
-					out = append(out, "ok")
-				}
-			case "rot":
-				rot.rotate(db)
-				out = append(out, "ok")
-			case "wait":
-				out = append(out, c03WaitTasks(db))
-			default:
-				out = append(out, "bad-op")
-			}
-		}
-	}
-	for _, opl := range c.Ops {
-		n := len(out)
-		func() {
-			defer c03Recover(&out, n)
-			opOne(opl)
-		}()
-	}
-	return out
-}
-
 // ---------------------------------------------------------------- generator
 
 // subject keys: prefixes of one another, 0x00/0xff, keys that look like the tail of another key's composite key
@@ -717,8 +479,31 @@ func c03GenStore(r *lib.Rng, tier string) lib.Case {
 	return c
 }
 
+// scripted key results: mostly for the given keys (possibly several results for one key), sometimes for another key of
+// the pool; timers around the current watermark (some at or below it: SetTimer drops those)
+func c03GenResults(r *lib.Rng, sb *strings.Builder, keys, pool [][]byte, cur int64, maxRes int) {
+	for nr := r.Range(0, maxRes); nr > 0; nr-- {
+		k := keys[r.Intn(len(keys))]
+		if r.Chance(1, 8) {
+			k = lib.Pick(r, pool)
+		}
+		sb.WriteString(" res " + lib.Hex(k))
+		for nt := lib.Pick(r, []int{0, 0, 0, 1, 1, 2}); nt > 0; nt-- {
+			t := cur + int64(r.Range(-3, 40))
+			if r.Chance(1, 10) {
+				t = lib.Pick(r, []int64{97 << 24, 1 << 40})
+			}
+			sb.WriteString(fmt.Sprintf(" t %d", max(t, 0)))
+		}
+		if !r.Chance(1, 8) {
+			c03GenNss(r, sb, "")
+		}
+	}
+}
+
 func c03GenOp(r *lib.Rng, tier string) lib.Case {
-	kgc := lib.Pick(r, []int{1, 2, 256, 65535})
+	// (65535 key groups are left to store mode: every redeploy scans each key group's timers once)
+	kgc := lib.Pick(r, []int{1, 2, 7, 256})
 	b := r.Range(1, 8)
 	c := lib.Case{Header: fmt.Sprintf("M C03 %d op 0 %d %d %d", kgc, lib.Pick(r, []int{4200, 6000, 20000}), lib.Pick(r, []int{1, 5000}), b)}
 	pool := c03Pool(r)
@@ -726,47 +511,58 @@ func c03GenOp(r *lib.Rng, tier string) lib.Case {
 	if tier == "thorough" {
 		nb = r.Range(15, 60)
 	}
+	cur := int64(0) // the generator's own watermark clock
+	ckpts := 0
 	for i := 0; i < nb; i++ {
 		var sb strings.Builder
-		sb.WriteString("batch")
-		n := r.Range(1, b)
-		if r.Chance(1, 3) {
-			n = b
+		if r.Chance(1, 5) {
+			// watermark: the due timers fire through processEventBatch
+			cur += int64(r.Range(1, 25))
+			sb.WriteString(fmt.Sprintf("wm %d", cur))
+			c03GenResults(r, &sb, pool, pool, cur, 2)
+			c.Ops = append(c.Ops, sb.String())
+		} else {
+			sb.WriteString("batch")
+			n := r.Range(1, b)
+			if r.Chance(1, 3) {
+				n = b
+			}
+			var keys [][]byte
+			for j := 0; j < n; j++ {
+				k := lib.Pick(r, pool)
+				if j > 0 && r.Chance(1, 3) {
+					k = keys[r.Intn(len(keys))] // repeated key inside the batch
+				}
+				keys = append(keys, k)
+				sb.WriteString(" ev " + lib.Hex(k))
+			}
+			c03GenResults(r, &sb, keys, pool, cur, 3)
+			c.Ops = append(c.Ops, sb.String())
 		}
-		var keys [][]byte
-		for j := 0; j < n; j++ {
-			k := lib.Pick(r, pool)
-			if j > 0 && r.Chance(1, 3) {
-				k = keys[r.Intn(len(keys))] // repeated key inside the batch
-			}
-			keys = append(keys, k)
-			sb.WriteString(" ev " + lib.Hex(k))
-		}
-		// results: mostly for the batch's keys (possibly several results for one key), sometimes for another key
-		for nr := r.Range(0, 3); nr > 0; nr-- {
-			k := keys[r.Intn(len(keys))]
-			if r.Chance(1, 8) {
-				k = lib.Pick(r, pool)
-			}
-			sb.WriteString(" res " + lib.Hex(k))
-			if r.Chance(1, 4) {
-				sb.WriteString(fmt.Sprintf(" t %d", lib.Pick(r, []int64{1, 5, 97 << 24, 1 << 40})))
-			}
-			if !r.Chance(1, 8) {
-				c03GenNss(r, &sb, "")
-			}
-		}
-		c.Ops = append(c.Ops, sb.String())
-		switch r.Intn(8) {
+		switch r.Intn(12) {
 		case 0, 1, 2:
 			c.Ops = append(c.Ops, "rot")
 		case 3:
 			c.Ops = append(c.Ops, "rot", "wait")
-		case 4:
+		case 4, 5:
 			c.Ops = append(c.Ops, "ckpt")
+			ckpts++
+		case 6:
+			if ckpts > 0 {
+				// redeploy from the latest checkpoint: what was returned after it is gone, the rest stays
+				c.Ops = append(c.Ops, lib.Pick(r, []string{"restart", "restart new"}))
+				c.Tags = append(c.Tags, "restore")
+			}
+		case 7:
+			if ckpts > 0 && r.Chance(1, 2) {
+				c.Ops = append(c.Ops, "ckpt", lib.Pick(r, []string{"restart", "restart new"}))
+				ckpts++
+				c.Tags = append(c.Tags, "restore")
+			}
 		}
 	}
-	// final read-back of every key
+	// final read-back: fire every timer, then read every key
+	c.Ops = append(c.Ops, fmt.Sprintf("wm %d", int64(1)<<41))
 	for i := 0; i < len(pool); i += b {
 		var sb strings.Builder
 		sb.WriteString("batch")
@@ -798,6 +594,10 @@ func c03Fixed() []lib.Case {
 			"get 61", "get 610162", "get 6101", "get -", "get 6162", "tput 61 0", "tput - 1627389952", "get 61", "get -",
 			"apply 61 ns - p 0162 05 ns 62 d 63", "get 61", "prefixfree 61 610162 - 63", "prefixfree 61 61 62 63",
 			"inj 61 62 63 61 - 6263", "inj 61 6162 - 61 61 62", "disjoint 61 0 61", "decode 61 6162 -", "decode - - -"}},
+		{Header: "M C03 1 op 0 4200 1 2", Tags: []string{"op", "timers", "restore"}, Ops: []string{
+			"batch ev 6b ev 6c res 6b t 5 t 9 ns 61 p 01 aa res 6c t 5 ns 61 p 01 cc res 6d t 7", "ckpt",
+			"batch ev 6b res 6b t 30 ns 61 d 01 p 02 bb", "rot", "restart", "wm 8 res 6b ns 62 p - 01", "batch ev 6b ev 6c",
+			"ckpt", "batch ev 6c res 6c ns 61 d 01", "restart new", "wm 9", "batch ev 6c ev 6b", "wm 100"}},
 		{Header: "M C03 2 op 0 4200 1 3", Tags: []string{"D4", "op"}, Ops: []string{
 			"batch ev 6b ev 6c ev 6b res 6b t 5 ns 61 p 01 aa res 6c ns 61 p 01 cc", "rot", "wait",
 			"batch ev 6b res 6b ns 61 d 01", "batch ev 6b ev 6c", "rot", "wait", "ckpt", "batch ev 6c ev 6b ev 6c"}},
@@ -815,7 +615,8 @@ func propC03() *lib.Prop {
 			}
 			return 420
 		},
-		Fixed: func(tier string) []lib.Case { return c03Fixed() },
+		Fixed:    func(tier string) []lib.Case { return c03Fixed() },
+		FeedImpl: true, // only `wm` reads the implementation's output: which due timer fired in which invocation
 		Gen: func(r *lib.Rng, tier string, i int) lib.Case {
 			if i%3 == 2 {
 				return c03GenOp(r, tier)
